@@ -21,6 +21,33 @@ import typing as t
 import weakref
 
 
+_ENGINE_DIR: list = [None]
+
+
+def _engine_dir() -> str:
+    if _ENGINE_DIR[0] is None:
+        import os
+
+        import jinja2
+
+        _ENGINE_DIR[0] = os.path.dirname(os.path.realpath(jinja2.__file__)) + os.sep
+    return _ENGINE_DIR[0]
+
+
+def _template_or_engine_code(code) -> bool:
+    """Async generators the property speaks about: compiled template code (root, blocks, loop filters) and
+    generators the ENGINE itself creates to drive a template (any jinja2 module except filters.py, whose async
+    filter generators - map, select, ... - are not in the property's list and are only counted)."""
+    fn = code.co_filename
+    if fn == "<template>":
+        return True
+    return fn.startswith(_engine_dir()) and not fn.endswith(("filters.py",))
+
+
+def _gen_name(code) -> str:
+    return code.co_name if code.co_filename == "<template>" else "engine:" + code.co_name
+
+
 class SimStall(Exception):
     """Nothing ready and no timer pending while the loop was asked to run."""
 
@@ -36,7 +63,7 @@ class SimLoop(asyncio.BaseEventLoop):
         self.step_cap = step_cap
         self.task_steps: dict[str, int] = {}
         self._ntasks = 0
-        self.is_template_code = is_template_code or (lambda code: code.co_filename == "<template>")
+        self.is_template_code = is_template_code or _template_or_engine_code
         self.agens: list[tuple[weakref.ref, str]] = []  # template async generators seen at first iteration
         self.agens_other = 0
         self.finalized: list[str] = []  # template generators that reached the GC finalizer hook
@@ -80,7 +107,7 @@ class SimLoop(asyncio.BaseEventLoop):
     def _asyncgen_firstiter_hook(self, agen) -> None:
         code = agen.ag_code
         if self.is_template_code(code):
-            self.agens.append((weakref.ref(agen), code.co_name))
+            self.agens.append((weakref.ref(agen), _gen_name(code)))
         else:
             self.agens_other += 1
         super()._asyncgen_firstiter_hook(agen)
@@ -88,7 +115,7 @@ class SimLoop(asyncio.BaseEventLoop):
     def _asyncgen_finalizer_hook(self, agen) -> None:
         code = agen.ag_code
         if self.is_template_code(code):
-            self.finalized.append(code.co_name)
+            self.finalized.append(_gen_name(code))
         else:
             self.finalized_other += 1
         super()._asyncgen_finalizer_hook(agen)
@@ -101,6 +128,12 @@ class SimLoop(asyncio.BaseEventLoop):
             if g is not None and g.ag_frame is not None:
                 out.append(name)
         return out
+
+    def close(self) -> None:
+        if not self.is_closed() and not hasattr(self, "open_at_shutdown"):
+            # closed without shutdown_asyncgens(): whatever is open now will never be closed by anybody
+            self.open_at_close = self.open_template_generators()
+        super().close()
 
     async def shutdown_asyncgens(self) -> None:
         # whatever is still open now was not closed by the render itself
